@@ -180,6 +180,8 @@ class State:
     def __init__(self, env=None, la=(None, None), toks=None, consumed=0, first=None, last=None, ticks=0):
         self.ticks = ticks                # number of consuming steps so far (tokens and callee calls); not part of the state key
         self.tok_ticks = {}               # token id -> step at which it was consumed
+        self.produced = ()                # steps at which a callee returned a value (a parsed node / list / name)
+        self.appended = ()                # steps whose value was appended to a local list
         self.env = dict(env or {})
         self.la = tuple(la)
         self.toks = dict(toks or {})       # token id -> frozenset of atoms
@@ -190,6 +192,7 @@ class State:
     def copy(self):
         c = State(self.env, self.la, self.toks, self.consumed, self.first, self.last, self.ticks)
         c.tok_ticks = self.tok_ticks
+        c.produced, c.appended = self.produced, self.appended
         return c
 
     def slot_of(self, tid):
@@ -297,6 +300,8 @@ class Extractor:
             st.toks[self.tid] = self.pre[name]
             st.la = (self.tid, None)
             st.first = self.tid
+        if st.first is None:
+            st.first = self.ensure(st, 1)          # the token that is next when the method starts: the first token of whatever it parses
         self.run((Frame(tree.body, 0, None, name),), st, 0)
         return self.aut
 
@@ -614,6 +619,12 @@ class Extractor:
                         raise Unsupported("comparison %s" % text)
                     out.append((s2, n2, bool(r)))
                     continue
+                if isinstance(left, (ValueOfNodeV, ValueOfV, UnknownV)) and isinstance(right, (ValueOfNodeV, ValueOfV, UnknownV, ConstV)) and \
+                        not (isinstance(left, ValueOfV) and s2.slot_of(left.tid)) and not (isinstance(right, ValueOfV) and s2.slot_of(right.tid)):
+                    # a comparison between values that were already parsed: data, not look-ahead - both outcomes are possible
+                    out.append((s2.copy(), n2, True))
+                    out.append((s2.copy(), n2, False))
+                    continue
                 raise Unsupported("comparison %s at line %d" % (text, line))
         return out
 
@@ -772,7 +783,9 @@ class Extractor:
                 rec = {"cls": f.attr, "line": e.lineno, "kwargs": [k.arg for k in e.keywords],
                        "loc_text": loc.text if isinstance(loc, LocV) else (ast.unparse([k.value for k in e.keywords if k.arg == "loc"][0]) if "loc" in kw else None),
                        "loc_tid": loc.tid if isinstance(loc, LocV) else None, "loc_ticks": loc.ticks if isinstance(loc, LocV) else None,
-                       "first": s2.first, "ticks": s2.ticks, "consumed": s2.consumed,
+                       "first": s2.first, "ticks": s2.ticks, "consumed": s2.consumed, "produced": list(s2.produced),
+                       "covered": sorted(set(s2.appended) | {t for (v, _c, _n) in kw.values() for t in
+                                                             ([v.tick] if v.tick is not None else []) + (list(v.rec.get("covered", ())) if isinstance(v, NodeV) and v.rec else [])}),
                        "kw_ticks": {k: (v.tick if v.tick is not None else s2.tok_ticks.get(getattr(v, "tid", None))) for k, (v, _c, _n) in kw.items()},
                        "kw_none": {k: isinstance(v, ConstV) and (v.value is None or v.value == []) or (isinstance(v, ListV) and v.state == "empty" and v.tick is None)
                                    for k, (v, _c, _n) in kw.items()},
@@ -807,6 +820,11 @@ class Extractor:
                     if not isinstance(target, ListV) or not isinstance(f.value, ast.Name):
                         raise Unsupported("append to a non-list")
                     s2.env[f.value.id] = ListV("nonempty")
+                    for a_ in args:
+                        if a_.tick is not None:
+                            s2.appended = s2.appended + (a_.tick,)
+                        if isinstance(a_, NodeV) and a_.rec:
+                            s2.appended = s2.appended + tuple(a_.rec.get("covered", ()))
                     out.append((s2, n2, ConstV(None)))
             return out
         raise Unsupported("call %s at line %d" % (text, e.lineno))
@@ -897,6 +915,7 @@ class Extractor:
             self.aut.callsites.append({"edge": len(self.aut.edges), "callee": name, "args": tuple(vals), "la1": la1, "line": line})
             st.la = (None, None)
             st.ticks += 1
+            st.produced = st.produced + (st.ticks,)
             st.last = ("n", name)
             if ret == "list" and hint in self.tested:
                 out = []
